@@ -283,7 +283,8 @@ class NameServer(object):
 
     def count(self):
         """Returns the number of name registrations."""
-        return len(self.storage)
+        with self.lock:
+            return len(self.storage)
 
     def lookup(self, name, return_metadata=False):
         """
@@ -291,7 +292,8 @@ class NameServer(object):
         Returns tuple (uri, metadata) if return_metadata is True.
         """
         try:
-            uri, metadata = self.storage[name]
+            with self.lock:
+                uri, metadata = self.storage[name]
             uri = core.URI(uri)
             if return_metadata:
                 return uri, set(metadata or [])
